@@ -383,19 +383,14 @@ func (e *Engine) runPath(h *Harness, fn *ssa.Function, prefix []int, solver *Sol
 		res.Trace = append([]int{}, ex.taken...)
 		res.NewPrefixes = ex.pending
 		res.Instrs = ex.instrs
-		if status == "ok" && e.wantSample() {
+		if status == "ok" && allDischarged(res.Asserts) && e.wantSample() {
 			if r, m := ex.model(); r == Sat {
 				for k, v := range ex.choiceInputs {
 					m[k] = v
 				}
 				res.Inputs = m
-				var vals []value
 				for _, o := range ex.obsTerms {
-					vals = append(vals, o.v)
-				}
-				strs := ex.evalValuesModel(vals, m)
-				for i, o := range ex.obsTerms {
-					res.Observed = append(res.Observed, ObsRec{o.label, strs[i]})
+					res.Observed = append(res.Observed, ObsRec{o.label, renderValue(o.v, ex.lastEnv)})
 				}
 			}
 		}
@@ -548,4 +543,13 @@ func init() {
 			}
 		},
 	}
+}
+
+func allDischarged(as []AssertRec) bool {
+	for _, a := range as {
+		if a.Status != "discharged" {
+			return false
+		}
+	}
+	return true
 }
